@@ -20,10 +20,10 @@ from .vals import EngineError
 from .extract import StaleContract
 from .models import pylists, pyannote_  # noqa: F401  (registers the models)
 from . import heap  # noqa: F401  (tier B layer)
-from .models import numpy_cvx, genexp, csvio, rng, pysets, occmap, npsort  # noqa: F401,E402
+from .models import numpy_cvx, genexp, csvio, rng, pysets, occmap, npsort, strdict  # noqa: F401,E402
 
 ROOT = os.path.dirname(os.path.dirname(os.path.abspath(__file__)))
-CONTRACT_MODULES = ["numba_utils", "dissimilarity", "continuum", "alignment", "sampler", "cst", "recompute", "ordinal", "lazy", "statcats", "statgaps", "statinit", "statcustom", "getitem"]
+CONTRACT_MODULES = ["numba_utils", "dissimilarity", "continuum", "alignment", "sampler", "cst", "recompute", "ordinal", "lazy", "statcats", "statgaps", "statinit", "statcustom", "getitem", "catw"]
 VENV_PY = "/venv/bin/python"
 
 
